@@ -112,9 +112,13 @@ def run(rep, scratch, tier, seed, replay=None):
     if rc != 0:
         raise core.FrameworkError("wire harness (in-process) exited with %d: %s" % (rc, err[:1200]))
     nbad = compare(rep, reqs, impl, model, "in-process (convert.ToQuery + Index.Execute)", lines, stats)
+    implp, modelp, rcp, errp, _ = wc.run_wire(scratch, ds, reqs, "inproc", idx, "c14ip", extra=["preload"])
+    if rcp != 0:
+        raise core.FrameworkError("wire harness (in-process, preloaded) exited with %d: %s" % (rcp, errp[:1200]))
+    nbad += compare(rep, reqs, implp, modelp, "in-process, preloaded + LRU cache", lines, {})
     # against the server process: it must survive everything
-    for cache in ((True,) if tier == "quick" else (True, False)):
-        srv = wc.Server(scratch, idx, cache=cache)
+    for cache, preload in (((True, True),) if tier == "quick" else ((True, True), (True, False), (False, False), (False, True))):
+        srv = wc.Server(scratch, idx, cache=cache, preload=preload)
         try:
             impl2, model2, rc2, err2, _ = wc.run_wire(scratch, ds, reqs, srv.addr, idx, "c14s")
             alive = srv.alive()
@@ -127,7 +131,7 @@ def run(rep, scratch, tier, seed, replay=None):
                           {"request": killer[1] if killer else None, "server_output_tail": srv.output()[-1500:], "dataset_lines": lines[:45]})
             nbad += 1
         else:
-            nbad += compare(rep, reqs, impl2, model2, "updog server (cache %s)" % ("on" if cache else "off"), lines, {})
+            nbad += compare(rep, reqs, impl2, model2, "updog server (cache %s, preload %s)" % ("on" if cache else "off", "on" if preload else "off"), lines, {})
     # random byte-mutated messages that the real proto.Unmarshal accepts, answered in-process
     nfuzz, fuzz_bad = fuzz(rep, scratch, ds, idx, seed, 1500 if tier == "quick" else 150000)
     nbad += fuzz_bad
